@@ -22,7 +22,7 @@ RULE = ("histories of 1-4 runs of the pipeline ToCSV, MakeFilename, Write, Rende
         "MakeFilename op sequences against a model of the naming rules; output.changed of groups.")
 ASSUMPTIONS = [
     "converters are content-carrying shell stubs: the pdf stub writes the tex text followed by the csv text, the png stub copies the pdf; both append to an invocation log",
-    "the pipeline is built afresh for every run, as a new program execution would",
+    "the pipeline is built afresh for every run, as a new program execution would, or (a third of the histories) one pipeline object is used for all runs",
     "which files Write opens for writing is observed with an audit hook; converters are observed through the invocation log",
     "real pdflatex / pdftoppm, failing converters and data objects with their own write method are left out",
 ]
@@ -34,9 +34,17 @@ def hist_for(plot, version):
     return histogram(list(EDGES), [version + plot, 2 * version + 1, plot])
 
 
-def csv_text(plot, version):
-    """what ToCSV alone makes of the current data"""
-    res = list(ToCSV().run(iter([(hist_for(plot, version), {"name": "p%d" % plot})])))
+def plot_context(plot, dup=None):
+    ctx = {"name": "p%d" % plot}
+    if dup is not None:
+        # a per-plot option of ToCSV given in the context
+        ctx["output"] = {"duplicate_last_bin": dup}
+    return ctx
+
+
+def csv_text(plot, version, dup=None):
+    """what ToCSV alone makes of the current data (of this plot alone, with this plot's options)"""
+    res = list(ToCSV().run(iter([(hist_for(plot, version), plot_context(plot, dup))])))
     return res[0][0]
 
 
@@ -109,7 +117,7 @@ def model_write(files, path, text, mode, changed, created):
     return True, True
 
 
-def model_run(files, plots, versions, tver, settings):
+def model_run(files, plots, versions, tver, settings, dups=None):
     """files: path -> content (updated in place).
     -> written paths (by Write), invocation log, flags[plot][stage], created[plot]"""
     written, log, flags, created_by = [], [], {}, {}
@@ -117,7 +125,7 @@ def model_run(files, plots, versions, tver, settings):
         base = os.path.join("out", "p%d" % plot)
         created = []
         fl = {}
-        ch, wrote = model_write(files, base + ".csv", csv_text(plot, ver), settings["w1"], False, created)
+        ch, wrote = model_write(files, base + ".csv", csv_text(plot, ver, (dups or {}).get(str(plot))), settings["w1"], False, created)
         if wrote:
             written.append(base + ".csv")
         fl["csv"] = ch
@@ -167,6 +175,7 @@ def judge_history(case):
         try:
             model_files = {}
             pending = []
+            pipeline, shared_taps = None, {}
             for r, run in enumerate(runs):
                 # between runs: deleted files
                 for plot, kind in run.get("delete", []):
@@ -178,6 +187,9 @@ def judge_history(case):
                 if r and (run["versions"] != runs[r - 1]["versions"] or run["template"] != runs[r - 1]["template"]):
                     staleness_possible = True
                 write_template(run["template"])
+                # (the template's modification time strictly increases from run to run, whatever the clock's granularity)
+                t_ns = 1500000000 * 10 ** 9 + r * 10 ** 10
+                os.utime("templates/plot.tex", ns=(t_ns, t_ns))
                 if os.path.exists(log_path):
                     os.remove(log_path)
                 # backdate what exists, so that anything written now is recognisably newer
@@ -188,12 +200,20 @@ def judge_history(case):
                     st_ = os.stat(p)
                     before[p] = (st_.st_mtime_ns, st_.st_ino)
                 exp_files = dict(model_files)
-                written, exp_log, exp_flags, created_by = model_run(exp_files, plots, run["versions"], run["template"], settings)
+                written, exp_log, exp_flags, created_by = model_run(exp_files, plots, run["versions"], run["template"], settings, case.get("dups"))
                 taps = {}
-                flow = [(hist_for(p, v), {"name": "p%d" % p}) for p, v in zip(plots, run["versions"])]
+                flow = [(hist_for(p, v), plot_context(p, (case.get("dups") or {}).get(str(p)))) for p, v in zip(plots, run["versions"])]
                 audit_on()
                 try:
-                    out = list(build_pipeline(settings, log_path, taps).run(iter(flow)))
+                    if case.get("reuse"):
+                        # one pipeline object for all runs of the history (a long-lived process)
+                        if pipeline is None:
+                            pipeline = build_pipeline(settings, log_path, shared_taps)
+                        shared_taps.clear()
+                        out = list(pipeline.run(iter(flow)))
+                        taps.update(shared_taps)
+                    else:
+                        out = list(build_pipeline(settings, log_path, taps).run(iter(flow)))
                 finally:
                     events = audit_off()
                 got_files = read_tree()
@@ -210,7 +230,14 @@ def judge_history(case):
                             kind = path.rsplit(".", 1)[1]
                             tapped = [v for v in taps.get(kind, []) if v[0] == path]
                             flag = tapped[0][1].get("output", {}).get("changed") if tapped else None
-                            if not flag and r > 0:
+                            # the recorded mechanism: the converter is *told* that nothing changed (output.changed
+                            # False on the tex value it receives). When the flag is absent there, LaTeXToPDF decides
+                            # by modification times and the unchanged tree redoes the pdf: then a stale artefact is
+                            # another defect and keeps its own signature.
+                            tex_path = os.path.join("out", "p%d.tex" % pl)
+                            tex_vals = [v for v in taps.get("tex", []) if v[0] == tex_path]
+                            tex_flag = tex_vals[0][1].get("output", {}).get("changed") if tex_vals else None
+                            if not flag and r > 0 and tex_flag is False:
                                 return "derived-artefacts-not-redone-after-write-recreated-missing-%s" % kind
                     return default_sig
 
@@ -310,7 +337,12 @@ def history_case(draw):
         run["versions"] = list(versions)
         run["template"] = tver
         runs.append(run)
-    return {"plots": plots, "settings": settings, "runs": runs}
+    dups = {}
+    for p in plots:
+        d = draw(st.sampled_from([None, None, None, False, True]))
+        if d is not None:
+            dups[str(p)] = d
+    return {"plots": plots, "settings": settings, "runs": runs, "reuse": draw(st.sampled_from([False, False, True])), "dups": dups}
 
 
 def deletion_cases(tier):
